@@ -291,6 +291,10 @@ if not MISSING:
         def submit(self, fn, *a, **k):
             ctl = cur()
             if ctl is not None and hasattr(fn, "__self__") and hasattr(fn.__self__, "id") and ctl.on_sched():
+                if fn.__self__.id in getattr(ctl, "refuse", ()):
+                    # fault injection: the pool refuses the work item (as when no thread can be started)
+                    ctl.ev("REFUSED", fn.__self__.id)
+                    raise RuntimeError("can't start new thread (injected fault)")
                 ctl.ev("SUBMIT", "C", fn.__self__.id)
                 with ctl.lock:
                     ctl.n_submit_t += 1
